@@ -15,7 +15,7 @@ THEOREMS = [
 ASSUMPTIONS = ["finite coordinates (NaN would make floorf(NaN) -> int16 conversion undefined; the property quantifies over finite ones)"]
 RULE = ("all call sequences up to length 4 (quick: 3) over a small alphabet {set-start ok/unrepresentable, append-line short/exactly "
         "60000/60001/120001/3.6e6 ms to representable and unrepresentable targets, hold 0/59999/60000/60001/180000 ms, finish} after "
-        "init with scales {1,2,127}; init with scale 0/128/255; seeded random sequences of 200 calls; coordinates inside, exactly at "
+        "init with scales {1,2,127} (the builder object is not zero-filled before its first init; a successful init on the builder in use is one of the calls); init with scale 0/128/255; seeded random sequences of 200 calls; coordinates inside, exactly at "
         "and just beyond ±32767·scale, fractional coordinates, yaw incl. negative and >= 360; the builder's buffer is compared byte for "
         "byte after every call (a rejected call must leave it unchanged) and the finished trajectory's bytes and total duration too; "
         "at every finish the handed-over bytes are read with the format specification and the property's own statement is evaluated "
@@ -46,6 +46,7 @@ def alphabet(scale):
         "H0", "H59999", "H60000", "H60001", "H180000",
         "F",
         "J0,0", "J200,1",       # a refused init (invalid scale) on the live builder
+        f"R{scale},1",          # a successful init on the live builder (not destroyed first): it starts afresh
     ]
 
 
@@ -76,6 +77,8 @@ def generate(rng, tier):
                 calls.append("F")
             elif r < 0.1:
                 calls.append(f"J{rng.choice([0, 128, 200, 255])},{rng.choice([0, 1])}")
+            elif r < 0.115:
+                calls.append(f"R{scale},{rng.choice([0, 1])}")
             elif r < 0.2:
                 calls.append("S" + vec(rng.uniform(-lim, lim) * rng.choice([1, 1, 1.1]), rng.uniform(-lim, lim), rng.uniform(-lim, lim), rng.uniform(-720, 720)))
             elif r < 0.35:
